@@ -693,14 +693,13 @@ func (x *actorSystem) localSend(ctx context.Context, id *GrainIdentity, message 
 			return nil, err
 		case <-ctx.Done():
 			// The grain goroutine may still be processing and could send
-			// on the channels later. Mark response as closed so
-			// Response()/NoErr() CAS guards prevent late sends, and do
-			// NOT return channels to the pool -- let them be GC'd.
-			grainContext.responseClosed.Store(true)
+			// on the channels later, so do NOT return channels to the pool:
+			// let them be GC'd. The grain context is owned by the mailbox
+			// once received (it is recycled and reused), so it must not be
+			// touched here either.
 			timers.Put(timer)
 			return nil, errors.Join(ctx.Err(), gerrors.ErrRequestTimeout)
 		case <-timer.C:
-			grainContext.responseClosed.Store(true)
 			timers.Put(timer)
 			return nil, gerrors.ErrRequestTimeout
 		}
